@@ -3,3 +3,6 @@ use crate::runner::Ctx;
 
 pub fn c01(_ctx: &Ctx) {}
 pub fn c02(_ctx: &Ctx) {}
+pub fn c15(_ctx: &Ctx) {}
+pub fn c16(_ctx: &Ctx) {}
+pub fn c19(_ctx: &Ctx) {}
